@@ -107,6 +107,7 @@ func (b *builder) msg(m *ir.Message, dep bool, path string, depth int) *spec.Msg
 	}
 	ms := &spec.Msg{Name: m.Name, Path: path, Dep: dep, Empty: len(m.Fields) == 0}
 	ms.Attrs = b.fields(m, dep, path, nil, depth)
+	ms.Placeholder = ms.Empty || b.embedsEmpty(m, dep, 0)
 	for _, inj := range b.cfg.InjectedFields[path] {
 		t := inj.Type[strings.LastIndex(inj.Type, ".")+1:]
 		t = strings.ToLower(strings.TrimSuffix(t, "Type"))
@@ -114,6 +115,27 @@ func (b *builder) msg(m *ir.Message, dep bool, path string, depth int) *spec.Msg
 			Optional: inj.Optional, Validators: ids(inj.Validators), PlanModifiers: ids(inj.PlanModifiers)})
 	}
 	return ms
+}
+
+// embedsEmpty reports whether m embeds (directly or through embedded messages) a message
+// without fields: its placeholder attribute is flattened into m's level.
+func (b *builder) embedsEmpty(m *ir.Message, dep bool, depth int) bool {
+	if depth > 6 {
+		return false
+	}
+	for _, f := range m.Fields {
+		if !f.Embed || has(b.cfg.ExcludeFields, m.Name+"."+f.Name) {
+			continue
+		}
+		em := b.file.Msg(f.Ref, f.RefDep || dep)
+		if em == nil {
+			continue
+		}
+		if len(em.Fields) == 0 || b.embedsEmpty(em, f.RefDep || dep, depth+1) {
+			return true
+		}
+	}
+	return false
 }
 
 func leafOf(s ir.Scalar) string {
